@@ -51,6 +51,8 @@ func errClass(err error) string {
 		return "BadRequest"
 	case meta.IsNoMatchError(err):
 		return "NoMatch"
+	case apierrors.IsInternalError(err), apierrors.IsTooManyRequests(err), apierrors.IsServiceUnavailable(err), apierrors.IsTimeout(err):
+		return "ServerError"
 	case errors.Is(err, errInjected):
 		return "Fault"
 	}
@@ -247,7 +249,22 @@ func (c *Client) write(ctx context.Context, ev string, obj client.Object, dry bo
 	}
 	st.mu.Lock()
 	pre := deepCopyMap(st.objs[k])
-	res, werr := fn(st, k, ki)
+	var res map[string]any
+	var werr error
+	if class, bad := st.DryRunErr[k.Name]; dry && bad {
+		switch class {
+		case "TooManyRequests":
+			werr = apierrors.NewTooManyRequests("throttled", 1)
+		case "ServiceUnavailable":
+			werr = apierrors.NewServiceUnavailable("overloaded")
+		case "Timeout":
+			werr = apierrors.NewTimeoutError("timeout", 1)
+		default:
+			werr = apierrors.NewInternalError(errors.New("admission webhook unreachable"))
+		}
+	} else {
+		res, werr = fn(st, k, ki)
+	}
 	post := deepCopyMap(st.objs[k])
 	st.mu.Unlock()
 	prep, postp := c.proj(pre), c.proj(post)
